@@ -54,7 +54,10 @@ pub mod verif_tls {
     pub use super::tls::certificate::{verif_generate_with_identity, verif_parse_peer_id};
     pub use super::tls::{
         certificate::VERIF_P2P_SIGNING_PREFIX,
-        verif::{verif_check_client_cert, verif_check_server_cert, verif_generate_with},
+        verif::{
+            verif_check_client_cert, verif_check_server_cert, verif_generate_with,
+            verif_generate_with_extensions,
+        },
     };
     use crate::PeerId;
 
